@@ -34,6 +34,26 @@ pub fn emit_tree(t: &RefTree, out: &mut Vec<String>, rng: &mut Rng) {
     }
 }
 
+/// the same events as `emit_tree`, on one line, for `wbuild`
+pub fn compact_tree(t: &RefTree, rng: &mut Rng, out: &mut Vec<String>) {
+    match t {
+        RefTree::Tok(k, s) => {
+            if static_kind(*k) && rng.chance(1, 2) {
+                out.push(format!("k{}", k));
+            } else {
+                out.push(format!("t{}:{}", k, hex(s)));
+            }
+        }
+        RefTree::Node(k, cs) => {
+            out.push(format!("s{}", k));
+            for c in cs {
+                compact_tree(c, rng, out);
+            }
+            out.push("f".into());
+        }
+    }
+}
+
 pub fn static_kind(k: u32) -> bool {
     STATICS.iter().any(|(s, _)| *s == k)
 }
@@ -204,6 +224,13 @@ fn collision_squares(out: &mut Vec<String>, case: &mut usize, rng: &mut Rng, tie
         vec![t(11, "é")],
         vec![t(10, "ab")],
         vec![n(2, vec![t(10, "a")]), t(10, "b")],
+        // child lists that differ in token *kinds* only: two static kinds with the same text (no key at all), and the same
+        // interned text under two kinds
+        vec![t(12, "+")],
+        vec![t(17, "+")],
+        vec![t(18, "a")],
+        vec![t(10, "a"), t(12, "+")],
+        vec![t(18, "a"), t(17, "+")],
     ];
     let tl = |cs: &Vec<RefTree>| -> usize {
         fn l(t: &RefTree) -> usize {
@@ -372,8 +399,18 @@ pub fn gen_history(seed: u64, tier: &str) -> Vec<String> {
                 random_tree(&mut rng, d, w, &mut pool)
             };
             pool.push(t.clone());
-            emit_tree(&t, &mut out, &mut rng);
-            out.push("finish".into());
+            // every third history also goes through the borrowing / consuming constructors of the builder
+            let how = if i % 3 == 1 { ["", "with_cache", "with_cache", "with_interner", "from_interner"][rng.below(5)] } else { "" };
+            if how.is_empty() {
+                emit_tree(&t, &mut out, &mut rng);
+                out.push("finish".into());
+            } else {
+                // the builder line opened above is not used for this tree
+                out.pop();
+                let mut evs = vec![];
+                compact_tree(&t, &mut rng, &mut evs);
+                out.push(format!("wbuild {} c0 {}", how, evs.join(",")));
+            }
             after_finish(&mut out, g);
         }
         for g in 0..trees {
@@ -423,6 +460,23 @@ pub fn gen_intern(seed: u64, tier: &str) -> Vec<String> {
             }
             for r in 0..(len as u32 + 1) {
                 out.push(format!("resolve i0 {}", r));
+            }
+        }
+    }
+    // volume: several KiB of distinct text per back end (growth of the arena behind the interner)
+    for b in &bes {
+        if *b == "rodeo_micro" {
+            continue;
+        }
+        out.push(format!("case {}", case));
+        case += 1;
+        out.push(format!("interner {}", b));
+        let n = if tier == "thorough" { 3000 } else { 700 };
+        for k in 0..n {
+            let s = format!("identifier_{:05}_{}", k, "x".repeat(k % 7));
+            out.push(format!("intern i0 {}", hex(&s)));
+            if k % 97 == 0 {
+                out.push(format!("intern i0 {}", hex(&format!("identifier_{:05}_", k / 2))));
             }
         }
     }
